@@ -214,6 +214,12 @@ def replay(case):
         except common.Hang:
             why = "[hang] sudo run did not return"
         return why is None, why or "ok"
+    if kind == "reactive":
+        try:
+            why = common.with_timeout(reactive_case, 60, case)
+        except common.Hang:
+            why = "[hang] the run did not return"
+        return why is None, why or "ok"
     if kind == "split":
         try:
             why = common.with_timeout(split_case, 30, case)
@@ -277,6 +283,67 @@ def split_case(case):
         if sent.count(str(i)) != want:
             return "watcher for %r: %d responses reached stdin, the two streams hold %d occurrences" % (p, sent.count(str(i)), want)
     return None
+
+
+def reactive_case(case):
+    """INTERACTIVE command: it prints, and after a prompt it WAITS - its next output only comes once the answer has
+    reached its stdin.  Every prompt must be answered (once, in order) at the latest when the read that completes it has
+    been handled, however many reads came before and however full that read was; otherwise the command never goes on."""
+    import time
+    from fakerunner import Scripted, Sink
+    from invoke.watchers import Responder
+
+    class Reactive(Scripted):
+        hung = None
+
+        def read_proc_stdout(self, n):
+            if self._await is not None:
+                t0 = time.monotonic()
+                while len(self.stdin_writes) < self._await:
+                    if time.monotonic() - t0 > 2.5:
+                        self.hung = "prompt #%d (delivered by read #%d of %d bytes) was not answered: the command waits" % (
+                            self._await, self._reads, self._last)
+                        self._out = []
+                        break
+                    time.sleep(0.002)
+                self._await = None
+            if not self._out:
+                self._drained["out"] = True
+                return None
+            c, prompt = self._out.pop(0)
+            self._reads += 1
+            self._last = len(c)
+            if prompt:
+                self._prompts += 1
+                self._await = self._prompts
+            return c
+
+    chunks = [(bytes.fromhex(c), pr) for c, pr in case["chunks"]]
+    r = Reactive(out=[], finish_when="drained")
+    r._out, r._await, r._reads, r._prompts, r._last = list(chunks), None, 0, 0, 0
+    r.read_chunk_size = case.get("read_size", 1000)
+    r.run("cmd", watchers=[Responder(re.escape(case["prompt"]), "y\n")], hide=True, in_stream=False, encoding="utf-8",
+          out_stream=Sink(), err_stream=Sink())
+    if r.hung:
+        return "[hang] " + r.hung
+    want = sum(1 for _, pr in chunks if pr)
+    got = [w.decode() for w in r.stdin_writes]
+    if got != ["y\n"] * want:
+        return "%d prompts, responses %r" % (want, got[:6])
+    return None
+
+
+def gen_reactive(rng):
+    rs = 1000
+    prompt = "Go? "
+    pre = rng.choice([0, 3, 60, 99, 100, 101, 130, 260])
+    chunks = [[bytes(rng.choice(b"abc \n") for _ in range(rng.randint(1, 4))).hex(), False] for _ in range(pre)]
+    for _ in range(rng.randint(1, 3)):
+        size = rng.choice([rs, rs, rs - 1, 17, len(prompt)])
+        body = bytes(rng.choice(b"xyz \n") for _ in range(size - len(prompt))) + prompt.encode()
+        chunks.append([body.hex(), True])
+        chunks += [[b"ok\n".hex(), False]] * rng.randint(0, 3)
+    return {"kind": "reactive", "prompt": prompt, "read_size": rs, "chunks": chunks}
 
 
 def gen_split(rng):
@@ -388,6 +455,18 @@ def run(ctx):
         out.hist["split:midchar" if mid else "split:boundary"] += 1
         ok, why = replay(c)
         if not ok:
+            out.fail(c, why)
+    # an interactive command that waits for its answer after each prompt (any number of earlier reads, full-sized reads)
+    nfail = 0
+    for _ in range(ctx.n(40, 300)):
+        if nfail >= 3:
+            break
+        c = gen_reactive(rng)
+        out.case(c, True)
+        out.hist["reactive:pre%d" % (0 if len(c["chunks"]) < 50 else 100 if len(c["chunks"]) < 200 else 260)] += 1
+        ok, why = replay(c)
+        if not ok:
+            nfail += 1
             out.fail(c, why)
     # sudo: the FailingResponder wired up by Context.sudo
     texts = ["[sudo] password: root\n", "[sudo] password: Sorry, try again.\n[sudo] password: ", "hello\n",
